@@ -275,6 +275,12 @@ pub struct Img {
     pub stride_extra: u32,
     pub yield_rows: bool,
     pub panic_at: u64,
+    /// byte-slice containers only (`Buffer`, `DynSlice`, `DynImgAsSrc`): the slice handed
+    /// to the constructor starts this many bytes after an aligned address. For pixel types
+    /// with alignment > 1 the constructor has to answer `InvalidBufferAlignment`; u8 types
+    /// simply live at an odd address.
+    #[serde(default)]
+    pub misalign: u8,
 }
 
 #[derive(Clone, Debug, PartialEq, Serialize, Deserialize)]
